@@ -15,6 +15,11 @@ system sharing the array; the cell and the positions may have been edited throug
 rebuilt / copied / reloaded, derived quantities read, other systems wrapped before.  Inputs come in every documented
 form (lists, tuples, integer-typed, non-contiguous, read-only cell arrays, relative positions with scale=True).
 
+Every clause carries an overall LENGTH SCALE (the property holds whatever the length unit; atomman's working units can be
+SI, a lattice parameter is then 4e-10): cell vectors, origin, positions and far-atom offsets are multiplied by 10^k
+(k = -12..6, metres favoured; 2^k in wrap_exact so that the arithmetic stays exact), exactly 1 in about half of the cases;
+see "overall length scale" below.  All tolerances are relative to the size of the cell.
+
 Oracles are numpy only (own solve for relative coordinates, own lattice parameters, pbt.oracles.nearest_image for the
 true nearest-image distances); nothing here calls Box.inside, Box.a/alpha/..., dvect or dmag.
 """
@@ -47,7 +52,11 @@ RULE = ("cells in LAMMPS triangular form (lengths 0.5-50, tilts up to 1.5 length
         "(wrap_exact only), relative positions with System(scale=True); cell as array, "
         "list, tuple, Fortran-ordered, read-only, avect/bvect/cvect; pbc as list, tuple, bool ndarray, ints, numpy bools, "
         "strided, read-only; safecopy).  The judged state (cell, origin, positions, pbc) is read back from the system "
-        "after the history; 'pbc' of a case is the periodicity at the judged call, 'pbc0' the one given to the constructor")
+        "after the history; 'pbc' of a case is the periodicity at the judged call, 'pbc0' the one given to the constructor.  "
+        "LENGTH SCALE: the whole geometric input of a case (cell vectors, origin, positions incl. far-atom offsets, the other "
+        "system wrapped in a history) is multiplied by 10^k, k in {-12,-10 (favoured: metres),-9,-8,-5,-3,-1,1,3,6}, in wrap_exact "
+        "by 2^k, k in {-40,-33 (favoured),-30,-27,-17,-10,-3,3,10,20}; exactly 1 in about half of the cases; integer-typed "
+        "(whole-number) positions get the reciprocal scale when it is below 1")
 ASSUMPTIONS = ["numpy linear algebra (solve, inv, det) is correct",
                "pbt.oracles.nearest_image (exhaustive search with proven radius) gives the true nearest-image distance",
                "normalize is judged only on cells with cond(vects) <= 1e3 (its hard-coded orthonormality asserts and "
@@ -63,13 +72,16 @@ ASSUMPTIONS = ["numpy linear algebra (solve, inv, det) is correct",
                "a read-only positions array is the caller's restriction (Atoms keeps the array it is given, wrap writes "
                "in place): not generated",
                "normalize as an earlier operation in a history is only called inside the domain the property states "
-               "(fully periodic, cond <= 1e3)"]
+               "(fully periodic, cond <= 1e3)",
+               "System.wrap's padding of a non-periodic direction (0.001) is in relative coordinates, i.e. relative to the cell: "
+               "nothing is asserted about its size, only that the old cell and every atom are inside the new one"]
 LEVEL_TEXT = ("Random exploration of System.wrap over right/left-handed, rotated and strongly tilted cells with every "
               "periodicity setting and atoms up to 1e5 cells outside or exactly on faces (faces decided exactly on dyadic "
               "inputs), and of System.normalize / lammps.normalize over fully periodic systems with cond <= 1e3; each after a random "
               "history on the same object / in the same process (periodicity changed by setter, element-wise in place or through "
               "an aliased array; cell and position edits; rebuilds, copies, reloads; reads; earlier wraps) and over the documented "
-              "input forms (lists, tuples, integer-typed in every integer-like dtype incl. unsigned and bool, non-contiguous, read-only cell, scale=True).")
+              "input forms (lists, tuples, integer-typed in every integer-like dtype incl. unsigned and bool, non-contiguous, read-only cell, scale=True); "
+              "every clause in length units from 1e-12 to 1e+6 (cells in metres, nm, Bohr, ...; powers of two in the exact clause), tolerances relative to the cell.")
 TECHNIQUE = ("independent relative-coordinate solve with derived bands, exact dyadic arithmetic on faces, "
              "exhaustive nearest-image search for pair distances, deep snapshot comparison")
 WALL = {'quick': 60, 'thorough': 600}
@@ -123,6 +135,35 @@ def prop_values(n, nprops):
 
 def atypes(n):
     return np.array([1 + (i * i + i // 2) % 3 for i in range(n)], dtype=int)
+
+
+# ----------------------------------------------------------------------------- overall length scale
+#
+# The property holds whatever the length unit: every length of a case (cell vectors, origin and - through the relative
+# coordinates the atoms are generated in - positions and far-atom offsets; the cell / position edits of a history are
+# relative too) is multiplied by cell['scale'] = L.  Clauses wrap / normalize: L = 10^k, k in -12..6 (k = -10, a cell in
+# metres, favoured); clause wrap_exact: L = 2^k (k in -40..20), which keeps every number atomman computes exact.  L is exactly
+# 1 (no 'scale' key: the cases of earlier rounds) in about half of the cases.  What the unchanged code does with a length:
+# Box.vects floor 1e-9 * max|vects| (relative); wrap pads non-periodic directions by 0.001 in RELATIVE coordinates
+# (mins/maxs are "box dimensions relative to box vectors, i.e 0 to 1"): a relative margin, nothing asserted about its size;
+# normalize's asserts act on the dimensionless transformation matrix.  Nothing on this path is an absolute length.
+# All tolerances below are relative to the size of the cell (vmax, omax, xmax carry L; inside_band is dimensionless).
+
+def case_scale(case):
+    return float(case['cell'].get('scale', 1.0))
+
+
+def scale_labels(L, labels):
+    if L != 1.0:
+        labels.add('scaled')
+        if L <= 1e-9:
+            labels.add('scale_si')          # a cell given in metres (or smaller)
+        if L < 1.0:
+            labels.add('scale_small')
+        else:
+            labels.add('scale_large')
+    else:
+        labels.add('scale_1')
 
 
 # key of the finding (fixed in /repo by 2a7c2bf; kept so that a recurrence - for any integer-like dtype - is reported as an
@@ -244,14 +285,18 @@ def build_system(am, case, pbc, exact=False):
     c = case['cell']
     forms = dict(_DEFAULT_FORMS, **(case.get('forms') or {}))
     V, o = gens.cell_vects(c), gens.cell_origin(c)
+    L = case_scale(case)
     s = np.array(case['rel'], dtype=float)
     x = s @ V + o
     idt = int(forms.get('idt') or 0) % len(INT_DTYPES)
     if forms['pos'] == 'float32':
         # only where no rounding can occur (see the note at INT_DTYPES): exact clause, numbers with at most 20 significant bits
         # before the call (the call only subtracts whole cell vectors, which keeps the binary grid and shrinks the magnitude)
+        # (in units of the length scale L, a power of two in the exact clause: x / L is exact)
         grid = 2.0 ** 10
-        ok = exact and not forms['scaled'] and bool(np.all(x * grid == np.rint(x * grid)) and float(np.abs(x).max()) < 2.0 ** 10)
+        xl = x / L
+        ok = (exact and not forms['scaled'] and math.frexp(L)[0] == 0.5 and 2.0 ** -80 <= L <= 2.0 ** 80
+              and bool(np.all(xl * grid == np.rint(xl * grid)) and float(np.abs(xl).max()) < 2.0 ** 10))
         if not ok:
             forms['pos'] = 'float'
     if forms['pos'] in ('int_array', 'int_list'):
@@ -286,7 +331,7 @@ def build_system(am, case, pbc, exact=False):
            'changed': False,                    # cell or positions changed since construction
            'int_stored': np.asarray(system.atoms.view['pos']).dtype.kind in 'iub',
            'pos_dtype': str(np.asarray(system.atoms.view['pos']).dtype),
-           'forms': forms, 'scaled': scaled}
+           'forms': forms, 'scaled': scaled, 'L': L}
     return system, V, o, s, x, props, ctx
 
 
@@ -445,10 +490,10 @@ def _op_read(system, op, ctx, labels):
     labels.add('hist_read')
 
 
-def _op_other_wrap(am, op, labels):
-    """process history: another system, other periodicity, atoms outside, wrapped first"""
-    other = am.System(atoms=am.Atoms(pos=np.array([[1.5, -0.5, 2.5], [0.25, 3.5, -1.5]])),
-                      box=am.Box(vects=np.array([[1.0, 0.0, 0.0], [0.5, 1.0, 0.0], [0.0, 0.25, 2.0]])), pbc=list(op['pbc']))
+def _op_other_wrap(am, op, labels, L=1.0):
+    """process history: another system (same length unit), other periodicity, atoms outside, wrapped first"""
+    other = am.System(atoms=am.Atoms(pos=L * np.array([[1.5, -0.5, 2.5], [0.25, 3.5, -1.5]])),
+                      box=am.Box(vects=L * np.array([[1.0, 0.0, 0.0], [0.5, 1.0, 0.0], [0.0, 0.25, 2.0]])), pbc=list(op['pbc']))
     other.wrap()
     labels.add('hist_other_wrap')
 
@@ -479,7 +524,7 @@ def apply_history(am, system, hist, ctx, labels):
         elif k == 'read':
             _op_read(system, op, ctx, labels)
         elif k == 'other_wrap':
-            _op_other_wrap(am, op, labels)
+            _op_other_wrap(am, op, labels, ctx.get('L', 1.0))
         else:
             raise HarnessError('history op %r' % (k,))
     if hist:
@@ -666,6 +711,22 @@ _forms = st.builds(lambda a, b, c, d, e, i: {'pos': a, 'box': b, 'pbc': c, 'scal
                    _pos_form, _box_form, _pbc_form, _one_in_5, _one_in_5, _int_dtype)
 
 
+# overall length scale (see "overall length scale" above): exponent 0 in about half of the cases, -10 (metres) favoured
+_scale_k10 = st.sampled_from([0, 0, 0, 0, 0, 0, 0, 0, -10, -10, -10, -10, -12, -9, -8, -5, -3, -1, 1, 3, 6])
+_scale_k2 = st.sampled_from([0, 0, 0, 0, 0, 0, 0, 0, -33, -33, -33, -33, -40, -30, -27, -17, -10, -3, 3, 10, 20])
+_INT_FORMS = ('int_array', 'int_list')
+
+
+def _with_scale(c, k, base, forms):
+    """the cell dict with the overall length scale base**k.  Whole-number positions (integer-typed input forms) in a unit in
+    which the cell is smaller than 1 are all zero: those cases get the reciprocal scale (at most base**|k| <= 1e6) instead"""
+    if k < 0 and forms['pos'] in _INT_FORMS:
+        k = min(-k, 6 if base == 10.0 else 20)
+    if k != 0:
+        c = dict(c, scale=base ** k)
+    return c
+
+
 def final_pbc(pbc0, hist):
     pbc = list(pbc0)
     for op in hist:
@@ -680,9 +741,11 @@ def wrap_cases(draw):
     far = draw(_int6) == 0
     rel = draw(_points_far if far else _points)
     pbc0, hist = draw(_pbcs), draw(_hist)
+    forms = draw(_forms)
+    c = _with_scale(c, draw(_scale_k10), 10.0, forms)
     # 'pbc' is the periodicity at the judged call, 'pbc0' the one given to the constructor
     return {'cell': c, 'pbc0': pbc0, 'pbc': final_pbc(pbc0, hist), 'rel': rel, 'nprops': draw(_nprops),
-            'ret': draw(_int6) != 0, 'symbols': draw(_bool), 'hist': hist, 'forms': draw(_forms)}
+            'ret': draw(_int6) != 0, 'symbols': draw(_bool), 'hist': hist, 'forms': forms}
 
 
 _pow2 = st.sampled_from([0.5, 1.0, 2.0, 4.0, 8.0, 16.0])
@@ -699,8 +762,10 @@ def wrap_exact_cases(draw):
     c = {'lx': lx, 'ly': ly, 'lz': lz, 'xy': xy, 'xz': xz, 'yz': yz,
          'origin': [draw(_dy_origin) for _ in range(3)], 'rot': None, 'lefthanded': draw(_bool)}
     pbc0, hist = draw(_pbcs), draw(_hist_exact)
+    forms = draw(_forms)
+    c = _with_scale(c, draw(_scale_k2), 2.0, forms)          # power of two: every number stays exactly representable
     return {'cell': c, 'pbc0': pbc0, 'pbc': final_pbc(pbc0, hist), 'rel': draw(_dy_points), 'nprops': draw(_nprops),
-            'ret': True, 'symbols': False, 'hist': hist, 'forms': draw(_forms)}
+            'ret': True, 'symbols': False, 'hist': hist, 'forms': forms}
 
 
 @st.composite
@@ -712,9 +777,11 @@ def normalize_cases(draw):
     if not all(final_pbc(pbc0, hist)):
         # normalize is stated for fully periodic systems: the history ends by making the system fully periodic
         hist = hist + [{'op': 'pbc', 'how': draw(_PBC_HOWS), 'to': [True, True, True]}]
+    forms = draw(_forms)
+    c = _with_scale(c, draw(_scale_k10), 10.0, forms)
     return {'cell': c, 'rel': rel, 'nprops': draw(_nprops), 'ret': draw(_int6) != 0,
             'via': draw(st.sampled_from(['method', 'method', 'function'])), 'symbols': draw(_bool),
-            'pbc0': pbc0, 'hist': hist, 'forms': draw(_forms)}
+            'pbc0': pbc0, 'hist': hist, 'forms': forms}
 
 
 # ----------------------------------------------------------------------------- wrap
@@ -740,6 +807,7 @@ def oracle_wrap(case, exact=False, ctx_out=None):
     n = len(s)
     at0 = atypes(n)
     labels = gens.cell_labels(c)
+    scale_labels(ctx['L'], labels)
     form_labels(ctx, labels)
     if not ctx['changed']:
         Vc = np.array(system.box.vects, dtype=float)
@@ -776,7 +844,8 @@ def oracle_wrap(case, exact=False, ctx_out=None):
 
     if exact:
         R = np.linalg.inv(Vb)
-        if not (_is_dyadic(R) and _is_dyadic(Vb, 8) and np.array_equal(Vb @ R, np.eye(3)) and np.array_equal(Vb, V)):
+        Lx = ctx['L']         # a power of two: scaling by it is exact
+        if not (math.frexp(Lx)[0] == 0.5 and _is_dyadic(R * Lx) and _is_dyadic(Vb / Lx, 8) and np.array_equal(Vb @ R, np.eye(3)) and np.array_equal(Vb, V)):
             exact = False
             labels.add('not_exact')
         else:
@@ -904,6 +973,7 @@ def oracle_normalize(case, ctx_out=None):
                        given=str(ctx['forms'].get('int_dtype', 'list of Python ints')))
     n = len(s)
     at0 = atypes(n)
+    scale_labels(ctx['L'], labels)
     form_labels(ctx, labels)
     system = apply_history(am, system, hist, ctx, labels)
     if ctx['changed']:
@@ -1043,25 +1113,28 @@ def oracle_normalize(case, ctx_out=None):
 
 CLAUSES = [
     Clause('wrap', oracle_wrap, wrap_cases, quick=5500, thorough=150000,
-           min_share={'nt': 0.35, 'lefthanded': 0.2, 'tilted': 0.3, 'mixed_pbc': 0.3, 'pbc3': 0.12, 'pbc0': 0.04, 'grew': 0.25,
+           min_share={'scaled': 0.22, 'scale_1': 0.23, 'scale_si': 0.08, 'scale_small': 0.12, 'scale_large': 0.09,
+                      'nt': 0.35, 'lefthanded': 0.2, 'tilted': 0.3, 'mixed_pbc': 0.3, 'pbc3': 0.12, 'pbc0': 0.04, 'grew': 0.25,
                       'wrapped': 0.3, 'multi_image': 0.25, 'far': 0.04, 'props': 0.3, 'flags_returned': 0.35, 'onface': 0.4,
                       'hist': 0.25, 'pbc_changed': 0.12, 'pbc_inplace': 0.07, 'inplace_toggled_out': 0.05, 'pbc_elem': 0.1,
                       'pbc_setter': 0.08, 'forms': 0.35, 'pbc_form': 0.28, 'box_form': 0.2, 'pos_scaled_ctor': 0.06,
                       'pos_list': 0.05, 'hist_rebuild': 0.05, 'hist_read': 0.06, 'hist_box_set': 0.025, 'hist_pos_edit': 0.03,
                       'prior_wrap': 0.03, 'prior_scaled_read': 0.07,
                       'pos_int': 0.08, 'pos_int_not64': 0.05, 'pos_int_narrow': 0.025, 'pos_int_unsigned': 0.02, 'pos_int_bool': 0.008},
-           desc='wrap: moves = imageflags.vects on periodic axes only, periodic vectors unchanged, cell only grows, all atoms inside, properties untouched; after any history, every input form'),
+           desc='wrap: moves = imageflags.vects on periodic axes only, periodic vectors unchanged, cell only grows, all atoms inside, properties untouched; after any history, every input form, every length unit'),
     Clause('wrap_exact', oracle_wrap_exact, wrap_exact_cases, quick=2400, thorough=50000,
-           min_share={'exact': 0.5, 'nt': 0.35, 'onface': 0.4, 'far': 0.3, 'pbc3': 0.1, 'mixed_pbc': 0.3,
+           min_share={'scaled': 0.22, 'scale_1': 0.23, 'scale_si': 0.08, 'scale_small': 0.12, 'scale_large': 0.09,
+                      'exact': 0.5, 'nt': 0.35, 'onface': 0.4, 'far': 0.3, 'pbc3': 0.1, 'mixed_pbc': 0.3,
                       'hist': 0.25, 'pbc_changed': 0.15, 'pbc_inplace': 0.08, 'inplace_toggled_out': 0.07, 'forms': 0.35,
                       'pos_int': 0.08, 'pos_int_not64': 0.05, 'pos_int_narrow': 0.025, 'pos_int_unsigned': 0.02, 'pos_int_bool': 0.008, 'pos_float32': 0.02},
            desc='wrap on exactly representable inputs (atoms exactly on faces, far outside): zero tolerance, zero band on periodic axes; after exactness-preserving histories'),
     Clause('normalize', oracle_normalize, normalize_cases, quick=4000, thorough=100000,
-           min_share={'nt': 0.35, 'lefthanded': 0.2, 'rotated': 0.2, 'tilted': 0.3, 'pairs': 0.35, 'transform_returned': 0.3,
+           min_share={'scaled': 0.22, 'scale_1': 0.23, 'scale_si': 0.07, 'scale_small': 0.12, 'scale_large': 0.09,
+                      'nt': 0.35, 'lefthanded': 0.2, 'rotated': 0.2, 'tilted': 0.3, 'pairs': 0.35, 'transform_returned': 0.3,
                       'via_function': 0.12, 'far': 0.04, 'props': 0.3,
                       'hist': 0.35, 'pbc_changed': 0.3, 'pbc_inplace': 0.2, 'inplace_toggled_out': 0.15, 'forms': 0.35,
                       'hist_box_set': 0.03, 'hist_pos_edit': 0.03, 'hist_rebuild': 0.05,
                       'pos_int': 0.08, 'pos_int_not64': 0.05, 'pos_int_narrow': 0.025, 'pos_int_unsigned': 0.02, 'pos_int_bool': 0.008},
            max_share={'illcond_skipped': 0.05},
-           desc='normalize: input untouched, new right-handed LAMMPS cell with same lengths/angles/volume, proper rotation maps old vectors to new, atoms inside, nearest-image distances unchanged; after any history ending fully periodic, every input form'),
+           desc='normalize: input untouched, new right-handed LAMMPS cell with same lengths/angles/volume, proper rotation maps old vectors to new, atoms inside, nearest-image distances unchanged; after any history ending fully periodic, every input form, every length unit'),
 ]
